@@ -12,68 +12,343 @@ open Jp Jp.Spec
 -- intersection_lcp intersection_prefix_both intersection_comm intersection_idem intersection_root
 -- concat_tokens concat_assoc concat_root startsWith_no_panic foo_not_prefix_of_foobar
 
+/-! ## helper lemmas -/
+
+theorem stripPrefix_eq_some (s p r : Bytes) : stripPrefix s p = some r ↔ s = p ++ r := by
+  induction p generalizing s with
+  | nil => cases s <;> simp [stripPrefix, eq_comm]
+  | cons c p ih =>
+    cases s with
+    | nil => simp [stripPrefix]
+    | cons b s =>
+      simp only [stripPrefix]
+      split
+      · rename_i h; subst h; simp [ih]
+      · rename_i h; simp [h]
+
+theorem stripSuffix_eq_some (s p r : Bytes) : stripSuffix s p = some r ↔ s = r ++ p := by
+  simp only [stripSuffix, Option.map_eq_some_iff, stripPrefix_eq_some]
+  constructor
+  · rintro ⟨a, ha, rfl⟩
+    have := congrArg List.reverse ha
+    simpa using this
+  · intro h
+    exact ⟨r.reverse, by simp [h], by simp⟩
+
+theorem startsWith_iff_ex (s p : Bytes) : startsWith s p = true ↔ ∃ r, s = p ++ r := by
+  simp only [startsWith, Option.isSome_iff_exists, stripPrefix_eq_some]
+
+theorem endsWith_iff_ex (s p : Bytes) : endsWith s p = true ↔ ∃ r, s = r ++ p := by
+  simp only [endsWith, Option.isSome_iff_exists, stripSuffix_eq_some]
+
+theorem tokens_nil : tokens [] = [] := by simp [tokens, splitOn]
+
+/-- key (1) -/
+theorem tokens_append_right (q r : Bytes) (hq : q = [] ∨ q.head? = some 47)
+    (hr : r = [] ∨ r.head? = some 47) : tokens (q ++ r) = tokens q ++ tokens r := by
+  have e : q ++ r = ofToks (tokens q ++ tokens r) := by
+    rw [ofToks_append, ofToks_tokens q hq, ofToks_tokens r hr]
+  rw [e, tokens_ofToks]
+  intro t ht
+  rcases List.mem_append.mp ht with h | h
+  · exact tokens_all_noSlash q t h
+  · exact tokens_all_noSlash r t h
+
+theorem shape_of_append_left (x q p : Bytes) (h : p = x ++ q) (hp : p = [] ∨ p.head? = some 47) :
+    x = [] ∨ x.head? = some 47 := by
+  cases x with
+  | nil => simp
+  | cons b x => subst h; simpa using hp
+
+/-- a shaped text whose tokens are all valid is a valid pointer -/
+theorem validPtr_of_tokens (r : Bytes) (hr : r = [] ∨ r.head? = some 47)
+    (h : ∀ t ∈ tokens r, validTok t = true) : validPtr r = true := by
+  rw [← ofToks_tokens r hr]; exact validPtr_ofToks _ h
+
+theorem eq_of_tokens (p q r : Bytes) (hp : validPtr p = true) (hq : validPtr q = true)
+    (hr : validPtr r = true) (h : tokens p = tokens q ++ tokens r) : p = q ++ r := by
+  rw [← ofToks_tokens p (validPtr_shape hp), h, ofToks_append,
+    ofToks_tokens q (validPtr_shape hq), ofToks_tokens r (validPtr_shape hr)]
+
+theorem shape_iff (r : Bytes) : (r.isEmpty || r.head? == some 47) = true ↔ (r = [] ∨ r.head? = some 47) := by
+  cases r <;> simp
+
+theorem ptrStripPrefix_eq_some (p q r : Bytes) :
+    ptrStripPrefix p q = some r ↔ (p = q ++ r ∧ (r = [] ∨ r.head? = some 47)) := by
+  unfold ptrStripPrefix
+  split
+  · rename_i s hs
+    rw [stripPrefix_eq_some] at hs
+    subst hs
+    split
+    · rename_i h
+      rw [shape_iff] at h
+      constructor
+      · intro e; simp at e; subst e; exact ⟨rfl, h⟩
+      · rintro ⟨e, _⟩; simp at e; simp [e]
+    · rename_i h
+      rw [shape_iff] at h
+      constructor
+      · intro e; simp at e
+      · rintro ⟨e, h'⟩; simp at e; subst e; exact absurd h' h
+  · rename_i hs
+    constructor
+    · intro e; simp at e
+    · rintro ⟨e, _⟩
+      rw [(stripPrefix_eq_some p q r).mpr e] at hs; simp at hs
+
+/-! ### intersection -/
+
+theorem lcp_nil_right (ps : List Bytes) : lcp ps [] = [] := by cases ps <;> simp [lcp]
+
+theorem lcp_nil_left (qs : List Bytes) : lcp [] qs = [] := by simp [lcp]
+
+theorem lcp_eq_take (ps qs : List Bytes) : lcp ps qs = ps.take (lcp ps qs).length := by
+  induction ps generalizing qs with
+  | nil => simp [lcp]
+  | cons a as ih =>
+    cases qs with
+    | nil => simp [lcp]
+    | cons b bs =>
+      simp only [lcp]
+      split
+      · simp only [List.length_cons, List.take_succ_cons]; rw [← ih bs]
+      · simp
+
+theorem lcp_prefix_left (ps qs : List Bytes) : lcp ps qs <+: ps := by
+  rw [lcp_eq_take]; exact List.take_prefix _ _
+
+theorem lcp_comm (ps qs : List Bytes) : lcp ps qs = lcp qs ps := by
+  induction ps generalizing qs with
+  | nil => simp [lcp_nil_right, lcp_nil_left]
+  | cons a as ih =>
+    cases qs with
+    | nil => simp [lcp]
+    | cons b bs =>
+      simp only [lcp]
+      by_cases h : a = b
+      · subst h; simp [ih bs]
+      · have h' : ¬ b = a := fun e => h e.symm
+        simp [h, h']
+
+theorem lcp_self (ps : List Bytes) : lcp ps ps = ps := by
+  induction ps with
+  | nil => simp [lcp]
+  | cons a as ih => simp [lcp, ih]
+
+theorem lcp_length_le (ps qs : List Bytes) : (lcp ps qs).length ≤ ps.length :=
+  (lcp_prefix_left ps qs).length_le
+
+theorem intersectionLoop_eq (ps qs : List Bytes) (idx : Nat) :
+    intersectionLoop ps qs idx = idx + off ps (lcp ps qs).length := by
+  induction ps generalizing qs idx with
+  | nil => simp [intersectionLoop, lcp, off]
+  | cons a as ih =>
+    cases qs with
+    | nil => simp [intersectionLoop, lcp, off]
+    | cons b bs =>
+      simp only [intersectionLoop, lcp]
+      by_cases h : a = b
+      · subst h
+        simp only [ne_eq, not_true_eq_false, if_false, if_true, List.length_cons, off_succ]
+        rw [ih]; omega
+      · simp [h, off]
+
+theorem splitAt_off (ps : List Bytes) (k : Nat) (hk : k ≤ ps.length) :
+    (∃ tl, splitAt (ofToks ps) (off ps k) = some (ofToks (ps.take k), tl)) ∨
+    (splitAt (ofToks ps) (off ps k) = none ∧ ofToks ps = ofToks (ps.take k)) := by
+  rcases Nat.lt_or_ge k ps.length with hlt | hge
+  · left
+    have hb : (ofToks ps)[off ps k]? = some 47 := by
+      have : (ofToks ps)[off ps k]? = ((ofToks ps).drop (off ps k))[0]? := by simp
+      rw [this, drop_off]
+      have : ps.drop k ≠ [] := by
+        intro e; have := congrArg List.length e; simp at this; omega
+      have := ofToks_head _ this
+      simpa [List.head?_eq_getElem?] using this
+    refine ⟨(ofToks ps).drop (off ps k), ?_⟩
+    simp only [splitAt, hb, ne_eq, not_true_eq_false, if_false]
+    rw [take_off ps k]
+  · right
+    have hk' : k = ps.length := by omega
+    subst hk'
+    have hb : (ofToks ps)[off ps ps.length]? = none := by
+      rw [← ofToks_length]; simp
+    simp [splitAt, hb]
+
+/-! ## the obligations -/
+
 /-- `p.starts_with(q)` iff `q`'s token list is a leading sub-list of `p`'s -/
 theorem startsWith_iff (p q : Bytes) (hp : validPtr p = true) (hq : validPtr q = true) :
     ptrStartsWith p q = .ok true ↔ tokens q <+: tokens p := by
-  sorry
+  have sp := validPtr_shape hp
+  have sq := validPtr_shape hq
+  constructor
+  · intro h
+    unfold ptrStartsWith at h
+    split at h
+    · rename_i hs
+      obtain ⟨r, rfl⟩ := (startsWith_iff_ex p q).mp hs
+      have hr : r = [] ∨ r.head? = some 47 := by
+        split at h
+        · rename_i hl
+          left; simpa using hl
+        · cases r with
+          | nil => simp
+          | cons b r => simp at h; simp [h]
+      rw [tokens_append_right q r sq hr]
+      exact List.prefix_append _ _
+    · simp at h
+  · rintro ⟨rs, hrs⟩
+    have hv : ∀ t ∈ rs, validTok t = true := fun t ht =>
+      tokens_valid hp t (by rw [← hrs]; simp [ht])
+    have hns : ∀ t ∈ rs, noSlash t := fun t ht => validTok_noSlash (hv t ht)
+    have hr := validPtr_ofToks rs hv
+    have e : p = q ++ ofToks rs := by
+      apply eq_of_tokens p q _ hp hq hr
+      rw [tokens_ofToks rs hns, hrs]
+    subst e
+    unfold ptrStartsWith
+    rw [if_pos ((startsWith_iff_ex _ _).mpr ⟨_, rfl⟩)]
+    cases rs with
+    | nil => simp [ofToks]
+    | cons t ts => simp [ofToks_cons]
 
 theorem startsWith_no_panic (p q : Bytes) (hp : validPtr p = true) (hq : validPtr q = true) :
     ∃ b, ptrStartsWith p q = .ok b := by
-  sorry
+  have _ := hp; have _ := hq
+  unfold ptrStartsWith
+  split
+  · rename_i hs
+    obtain ⟨r, rfl⟩ := (startsWith_iff_ex p q).mp hs
+    split
+    · exact ⟨_, rfl⟩
+    · rename_i hl
+      cases r with
+      | nil => simp at hl
+      | cons b r => simp
+  · exact ⟨_, rfl⟩
 
 /-- `strip_prefix` is `Some(r)` exactly in that case, `r` being the remaining tokens -/
 theorem stripPrefix_iff (p q r : Bytes) (hp : validPtr p = true) (hq : validPtr q = true) :
     ptrStripPrefix p q = some r ↔ (validPtr r = true ∧ tokens p = tokens q ++ tokens r) := by
-  sorry
+  rw [ptrStripPrefix_eq_some]
+  constructor
+  · rintro ⟨rfl, hr⟩
+    have ht := tokens_append_right q r (validPtr_shape hq) hr
+    refine ⟨validPtr_of_tokens r hr (fun t h => tokens_valid hp t ?_), ht⟩
+    rw [ht]; simp [h]
+  · rintro ⟨hr, ht⟩
+    exact ⟨eq_of_tokens p q r hp hq hr ht, validPtr_shape hr⟩
 
 /-- … so that `q.concat(r) == p` -/
 theorem stripPrefix_concat (p q r : Bytes) (hp : validPtr p = true) (hq : validPtr q = true)
     (h : ptrStripPrefix p q = some r) : concat q r = p := by
-  sorry
+  obtain ⟨rfl, _⟩ := (ptrStripPrefix_eq_some p q r).mp h
+  cases q <;> cases r <;> simp [concat, append, isRoot]
 
 /-- `ends_with`: trailing sub-list, with the documented exception that root is a suffix of root only -/
 theorem endsWith_iff (p q : Bytes) (hp : validPtr p = true) (hq : validPtr q = true) :
     ptrEndsWith p q = true ↔ ((q = [] ∧ p = []) ∨ (q ≠ [] ∧ tokens q <:+ tokens p)) := by
-  sorry
+  have sp := validPtr_shape hp
+  have sq := validPtr_shape hq
+  cases q with
+  | nil => cases p <;> simp [ptrEndsWith, isRoot]
+  | cons c q =>
+    have hne : (c :: q) ≠ [] := by simp
+    simp only [ptrEndsWith, isRoot, List.isEmpty_cons, Bool.and_false, Bool.false_or, Bool.not_false,
+      Bool.true_and, endsWith_iff_ex]
+    constructor
+    · rintro ⟨x, rfl⟩
+      right
+      refine ⟨hne, ?_⟩
+      have sx := shape_of_append_left x (c :: q) _ rfl sp
+      rw [tokens_append_right x _ sx sq]
+      exact List.suffix_append _ _
+    · rintro (⟨h, _⟩ | ⟨_, xs, hxs⟩)
+      · exact absurd h hne
+      · have hv : ∀ t ∈ xs, validTok t = true := fun t ht =>
+          tokens_valid hp t (by rw [← hxs]; simp [ht])
+        have hns : ∀ t ∈ xs, noSlash t := fun t ht => validTok_noSlash (hv t ht)
+        refine ⟨ofToks xs, ?_⟩
+        apply eq_of_tokens p _ _ hp (validPtr_ofToks xs hv) hq
+        rw [tokens_ofToks xs hns, hxs]
 
 theorem stripSuffix_iff (p q r : Bytes) (hp : validPtr p = true) (hq : validPtr q = true) :
     ptrStripSuffix p q = some r ↔ (validPtr r = true ∧ tokens p = tokens r ++ tokens q) := by
-  sorry
+  unfold ptrStripSuffix
+  rw [stripSuffix_eq_some]
+  constructor
+  · rintro rfl
+    have sr := shape_of_append_left r q _ rfl (validPtr_shape hp)
+    have ht := tokens_append_right r q sr (validPtr_shape hq)
+    refine ⟨validPtr_of_tokens r sr (fun t h => tokens_valid hp t ?_), ht⟩
+    rw [ht]; simp [h]
+  · rintro ⟨hr, ht⟩
+    exact eq_of_tokens p r q hp hr hq ht
 
 theorem stripSuffix_root (p : Bytes) : ptrStripSuffix p [] = some p := by
-  sorry
+  unfold ptrStripSuffix
+  rw [stripSuffix_eq_some]; simp
 
 /-- `intersection` is the longest common leading token list -/
 theorem intersection_lcp (p q : Bytes) (hp : validPtr p = true) (hq : validPtr q = true) :
     intersection p q = ofToks (lcp (tokens p) (tokens q)) := by
-  sorry
+  have _ := hq
+  unfold intersection
+  split
+  · rename_i h
+    simp only [isRoot, Bool.or_eq_true, List.isEmpty_iff] at h
+    rcases h with rfl | rfl
+    · simp [tokens_nil, lcp_nil_left, ofToks]
+    · simp [tokens_nil, lcp_nil_right, ofToks]
+  · obtain ⟨ps, hpe, htp, _, _⟩ := valid_decomp hp
+    simp only [intersectionLoop_eq, Nat.zero_add]
+    rw [htp]
+    subst hpe
+    rcases splitAt_off ps _ (lcp_length_le ps (tokens q)) with ⟨tl, h⟩ | ⟨h, h2⟩
+    · rw [h]; simp only []; rw [← lcp_eq_take]
+    · rw [h]; simp only []; rw [h2, ← lcp_eq_take]
 
 theorem intersection_prefix_both (p q : Bytes) (hp : validPtr p = true) (hq : validPtr q = true) :
     tokens (intersection p q) <+: tokens p ∧ tokens (intersection p q) <+: tokens q ∧
     validPtr (intersection p q) = true := by
-  sorry
+  rw [intersection_lcp p q hp hq]
+  have hpre := lcp_prefix_left (tokens p) (tokens q)
+  have hpre2 : lcp (tokens p) (tokens q) <+: tokens q := by
+    rw [lcp_comm]; exact lcp_prefix_left _ _
+  have hv : ∀ t ∈ lcp (tokens p) (tokens q), validTok t = true := fun t ht =>
+    tokens_valid hp t (hpre.subset ht)
+  have hns : ∀ t ∈ lcp (tokens p) (tokens q), noSlash t := fun t ht => validTok_noSlash (hv t ht)
+  rw [tokens_ofToks _ hns]
+  exact ⟨hpre, hpre2, validPtr_ofToks _ hv⟩
 
 theorem intersection_comm (p q : Bytes) (hp : validPtr p = true) (hq : validPtr q = true) :
     intersection p q = intersection q p := by
-  sorry
+  rw [intersection_lcp p q hp hq, intersection_lcp q p hq hp, lcp_comm]
 
 theorem intersection_idem (p : Bytes) (hp : validPtr p = true) : intersection p p = p := by
-  sorry
+  rw [intersection_lcp p p hp hp, lcp_self, ofToks_tokens p (validPtr_shape hp)]
 
 theorem intersection_root (p : Bytes) : intersection p [] = [] ∧ intersection [] p = [] := by
-  sorry
+  simp [intersection, isRoot]
 
 /-- `concat` is list concatenation -/
 theorem concat_tokens (p q : Bytes) (hp : validPtr p = true) (hq : validPtr q = true) :
     tokens (concat p q) = tokens p ++ tokens q := by
-  sorry
+  have e : concat p q = p ++ q := by
+    cases p <;> cases q <;> simp [concat, append, isRoot]
+  rw [e, tokens_append_right p q (validPtr_shape hp) (validPtr_shape hq)]
 
 theorem concat_assoc (p q r : Bytes) (hp : validPtr p = true) (hq : validPtr q = true)
     (hr : validPtr r = true) : concat (concat p q) r = concat p (concat q r) := by
-  sorry
+  have _ := hp; have _ := hq; have _ := hr
+  have e : ∀ a b : Bytes, concat a b = a ++ b := by
+    intro a b; cases a <;> cases b <;> simp [concat, append, isRoot]
+  simp [e]
 
 theorem concat_root (p : Bytes) : concat p [] = p ∧ concat [] p = p := by
-  sorry
+  cases p <;> simp [concat, append, isRoot]
 
 /-- none of these ever splits a token: "/foo" is not a prefix of "/foobar" -/
 theorem foo_not_prefix_of_foobar :
